@@ -283,9 +283,27 @@ impl Prop for P {
         // open, accessors, verify: any panic surfaces as S:PANIC through the caller's catch_unwind;
         // here it is caught to keep the message
         let r = panic::catch_unwind(panic::AssertUnwindSafe(|| outcome(&bytes, root)));
-        match r {
-            Ok((_, _, _, s)) => format!("S:total\tM:{}", s),
-            Err(_) => "S:PANIC\tM:PANIC".to_string(),
+        // the same untrusted bytes reaching an already opened handle through map_data (the other way of
+        // attaching bytes to a handle): same gate, same totality
+        let via = panic::catch_unwind(panic::AssertUnwindSafe(|| {
+            let base = fst::raw::Fst::new(fst::Set::from_iter(vec!["a", "b"]).unwrap().into_fst().into_inner()).unwrap();
+            match base.map_data(|_| bytes.clone()) {
+                Err(_) => (false, false),
+                Ok(f) => {
+                    let _ = (f.len(), f.is_empty(), f.size(), f.fst_type());
+                    (true, f.verify().is_ok())
+                }
+            }
+        }));
+        match (r, via) {
+            (Ok((opened, verified, _, s)), Ok((o2, v2))) => {
+                if (opened, verified) == (o2, v2) {
+                    format!("S:total\tM:{}", s)
+                } else {
+                    format!("S:total\tM:{}\tX:through map_data the same bytes give opened={} verified={}, directly opened={} verified={}", s, o2, v2, opened, verified)
+                }
+            }
+            _ => "S:PANIC\tM:PANIC".to_string(),
         }
     }
 
